@@ -3,6 +3,7 @@ C09 — the layered key-value store is one ordered map on every backend. Propert
 the model is `Model/Store.lean`, the specification `Model/Store/Spec.lean`, lemmas `Proofs/Store*.lean`.
 -/
 import NeoModel.Proofs.StoreSeekSpec
+import NeoModel.Model.Store.Window
 set_option linter.unusedSimpArgs false
 namespace NeoModel.Store.C09
 
@@ -188,9 +189,12 @@ theorem flush_seek_invisible {s s' : Store} (st : FlushStep s s') (h : s.WF) (rn
 FULL STATEMENT (false on the code as it is): "a range scan that overlaps ANY schedule of writes and
 flush steps answers with the ordered map of some moment between its start and its end". The real
 Seek is not one step: it snapshots the cached items, releases the lock and scans the lower store
-later (`Store.seekTwoPhase`). With a client batch AND a complete flush between the two sections the
-answer mixes two generations (`seek_torn_witness`; known finding seek-torn-by-write-and-flush).
-What is proved: the statement for scans that are atomic with respect to the schedule.
+later (`Store.seekSplit`, Model/Store/Window.lean). With a client batch AND a complete flush between
+the two sections the answer mixes two generations (`seek_torn_witness`; known finding
+seek-torn-by-write-and-flush). What is proved: the statement for scans that are atomic with respect to
+the schedule (below), and for the real two-section scan the strongest true statement — per key, not per
+map — in Props/C09b.lean (`seek_window_spec`, `seek_window_instant`, `seek_window_untouched`,
+`seek_window_flush_only`).
 -/
 
 /-- C09 (scans during any schedule, partial): at any moment of any interleaving of writes with flush
@@ -238,11 +242,11 @@ set_option maxRecDepth 4000 in
 /-- a Seek whose snapshot was taken in `torn0` and whose lower scan runs in `torn2` returns B of
 the first generation with C of the second: neither the answer before the batch nor after it. -/
 theorem seek_torn_witness :
-    torn0.seekTwoPhase torn2 tornRng = [(tornA, [1]), (tornB, [1]), (tornC, [2])] ∧
+    torn0.seekSplit torn2 tornRng false 0 = [(tornA, [1]), (tornB, [1]), (tornC, [2])] ∧
     torn0.seek tornRng = [(tornA, [1]), (tornB, [1])] ∧
     torn2.seek tornRng = [(tornA, [1]), (tornB, [2]), (tornC, [2])] := by
   refine ⟨?_, ?_, ?_⟩ <;>
-  simp [Store.seekTwoPhase, torn0, torn1, torn2, tornRng, tornA, tornB, tornC, Store.persist, Layer.count, Layer.putCS,
+  simp [Store.seekSplit, Store.splitView, Store.withBottom, Store.bottom, Store.seekObs, torn0, torn1, torn2, tornRng, tornA, tornB, tornC, Store.persist, Layer.count, Layer.putCS,
     mapCopy, mapSet, Store.persist1, Store.persist2, Store.persist3, Store.putChangeSet, Store.seek, memorySeek,
     isStor, sortKV, sortKVE, List.mergeSort, List.MergeSort.Internal.splitInTwo, List.merge, leDir, ltDir, lexLt,
     isKeyOK, lexLe, lowerRange, snapshot, Layer.choose, performSeek, mergeFunc, mergeLoop, flushLoop, emit, contOK, cutKey]
